@@ -395,7 +395,7 @@ def check_progress(chk, states, scratch):
         experiment.runtime.monitor.CreateMonitor = orig
 
 
-def check_interleavings(chk, reports, scratch, cov_key="monitor_interleavings_executed"):
+def check_interleavings(chk, reports, scratch, cov_key="monitor_interleavings_executed", budget=None):
     """spec -> code: CheckStatus runs concurrently with the controller.  For every state in which a check may begin
     and every controller action that may happen meanwhile, at every point where the monitor calls into the controller
     without holding its lock, the value the REAL CheckStatus writes must be one the specification allows for that
@@ -411,6 +411,19 @@ def check_interleavings(chk, reports, scratch, cov_key="monitor_interleavings_ex
             raise MachineryError("Progress.tla counts stage progress in 1/%s, the driver in 1/%d" % (r.get("den"), DEN))
         key = (r["n"], tuple(r["given"]), tuple(r["st0"]), tuple(r["prog0"]), r.get("start", 1), tuple(r.get("iters0") or [0] * r["n"]))
         allowed.setdefault(key, {}).setdefault((r["act"], r["arg"]), set()).add(r["reported"])
+    if budget:
+        # (begin state, action, call boundary) is too large a product for >= 3 stages: every begin state of <= 2 stages, and a
+        # VERIF_SEED-ed sample of the begin states of more stages (each with all its actions and boundaries), ~budget runs in all
+        import random as _random
+        rnd = _random.Random(chk.seed)
+        est = lambda k_: 8 * (len(allowed[k_]) - 1) + 1
+        small = sorted(k_ for k_ in allowed if k_[0] <= 2)
+        big = sorted(k_ for k_ in allowed if k_[0] > 2)
+        frac = min(1.0, max(0.0, budget - sum(map(est, small))) / max(1, sum(map(est, big))))
+        kept = [k_ for k_ in big if rnd.random() < frac]
+        chk.cov.setdefault("sampled", {})[cov_key] = {"begin_states_of_3_or_more_stages": len(big), "executed": len(kept), "fraction": round(frac, 3),
+                                                      "begin_states_of_2_stages_all_executed": len(small), "seed": chk.seed}
+        allowed = {k_: allowed[k_] for k_ in small + kept}
     groups = {}
     for key in allowed:
         groups.setdefault(key[:2] + (loop_stage(key[5]),), []).append(key)
@@ -477,7 +490,7 @@ def run(tier):
     os.makedirs(gen, exist_ok=True)
     thorough = tier == "thorough"
     ms = 4 if thorough else 3
-    grid = GRID_Q if not thorough else GRID_Q.replace("GridNeg = {10, 5000}", "GridNeg = {10}")
+    grid = GRID_Q
     common_w = "CONSTANTS\n  MinStages = 1\n  MaxStages = %d\n  %s\n" % (ms, grid)
     inv = "INVARIANT TypeOK\nINVARIANT WeightsNonNegative\nINVARIANT WeightsSumToOne\nINVARIANT GivenPreserved\n"
     # 1a. Normalise on the weight grid
@@ -522,7 +535,16 @@ def run(tier):
     if thorough:
         c3b = _cfg(os.path.join(gen, "Progress_emit_many.cfg"), "CONSTANTS\n  MinStages = 1\n  MaxStages = 8\n  GridPos = {0, 1250, 10000}\n  GridNeg = {}\n  UseSpecial = TRUE\n  Restarts = FALSE\n  LoopStages = {}\n  MaxIter = 0\n  Emit = TRUE\nINIT Init\nNEXT Load\nINVARIANT EmitCase\nCHECK_DEADLOCK FALSE\n")
         r = tlc.run_tlc("Progress", c3b, workers=1, timeout=900)
-        check_weights(chk, r["cases"], FL)
+        # 488k assignments: all of <= 5 stages, a VERIF_SEED-ed sample of those of 6-8 stages
+        import random as _random
+        rnd = _random.Random(chk.seed)
+        few = [c for c in r["cases"] if c["n"] <= 5]
+        more = [c for c in r["cases"] if c["n"] > 5]
+        pick_more = rnd.sample(more, min(len(more), 30000))
+        chk.cov.setdefault("sampled", {})["weights_up_to_8_stages"] = {"assignments_of_6_to_8_stages": len(more), "executed": len(pick_more),
+                                                                      "assignments_of_up_to_5_stages_all_executed": len(few), "seed": chk.seed,
+                                                                      "note": "of the malformed (rejected) ones among them every k-th, 300 in all, is built as a real experiment"}
+        check_weights(chk, few + pick_more, FL)
     phase("2 weights on the real loader")
     # 3. progress, spec -> code
     g4 = "GridPos = {0, 2500, 5000, 7500, 10000}\n  GridNeg = {}" if not thorough else "GridPos = {0, 2500, 3333, 3334, 5000, 7500, 10000}\n  GridNeg = {}"
@@ -531,6 +553,16 @@ def run(tier):
     states = r["cases"]
     if len(states) < 100:
         raise MachineryError("TLC emitted only %d progress states" % len(states))
+    if thorough:
+        # 584 weight vectors x every state of the state machine (156k): all vectors of <= 2 stages, a VERIF_SEED-ed sample of those of 3
+        import random as _random
+        rnd = _random.Random(chk.seed)
+        vec3 = sorted(set(tuple(s_["given"]) for s_ in states if s_["n"] == 3))
+        keep3 = set(rnd.sample(vec3, min(len(vec3), 90)))
+        nall = len(states)
+        states = [s_ for s_ in states if s_["n"] < 3 or tuple(s_["given"]) in keep3]
+        chk.cov.setdefault("sampled", {})["progress_states"] = {"weight_vectors_of_3_stages": len(vec3), "executed": len(keep3), "states_emitted": nall,
+                                                               "states_executed": len(states), "vectors_of_up_to_2_stages": "all", "seed": chk.seed}
     check_progress(chk, states, chk.scratch)
     phase("3 progress states on the real monitor")
     # 4. many stages (stage names 'stage10' < 'stage2' lexicographically): usable weight vectors only, distinct per position
@@ -550,18 +582,18 @@ def run(tier):
     phase("4 many stages")
     # 5. CheckStatus concurrent with the controller
     c6 = _cfg(os.path.join(gen, "Progress_reports_%s.cfg" % tier), "CONSTANTS\n  MinStages = 2\n  MaxStages = %d\n  GridPos = {%s}\n  GridNeg = {}\n  UseSpecial = TRUE\n  Restarts = TRUE\n  LoopStages = {}\n  MaxIter = 0\n  Emit = TRUE\n"
-              "SPECIFICATION Spec\nINVARIANT EmitReport\nINVARIANT ReportedInRange\nCHECK_DEADLOCK FALSE\n" % ((2, "2500, 7500") if not thorough else (3, "2500, 5000")))
+              "SPECIFICATION Spec\nINVARIANT EmitReport\nINVARIANT ReportedInRange\nCONSTRAINT FirstReport\nCHECK_DEADLOCK FALSE\n" % ((2, "2500, 7500") if not thorough else (3, "2500, 5000, 7500")))
     r = tlc.run_tlc("Progress", c6, workers=1, timeout=1500)
     chk.add_tlc(r)
     if len(r["cases"]) < 500:
         raise MachineryError("TLC emitted only %d CheckStatus reports" % len(r["cases"]))
-    check_interleavings(chk, r["cases"], chk.scratch)
+    check_interleavings(chk, r["cases"], chk.scratch, budget=45000 if thorough else None)
     phase("5 interleavings")
     # 6. loops: one stage hosts a DoWhile loop (in 3 stages the first or the second one, in 2 stages either); only packages whose
     #    weights are used as given.  6a: the controller alone - model checked, every state executed on the real code
     lconst = ("CONSTANTS\n  MinStages = 2\n  MaxStages = %d\n  GridPos = {%s}\n  GridNeg = {}\n  UseSpecial = FALSE\n  Restarts = TRUE\n"
               "  LoopStages = {%s}\n  MaxIter = 2\n  Emit = TRUE\n")
-    c7 = _cfg(os.path.join(gen, "Progress_loops_%s.cfg" % tier), lconst % ((3, "2500, 5000, 7500", "1, 2") if not thorough else (3, "2000, 3000, 5000, 7000", "1, 2, 3")) +
+    c7 = _cfg(os.path.join(gen, "Progress_loops_%s.cfg" % tier), lconst % ((3, "2500, 5000, 7500", "1, 2") if not thorough else (3, "2000, 2500, 3000, 5000, 7000, 7500", "1, 2, 3")) +
               "SPECIFICATION SpecNoMon\n" + inv + "INVARIANT TotalInRange\nINVARIANT TotalCompleteAtEnd\nINVARIANT NeverBoth\nINVARIANT FinishedIsComplete\n"
               "INVARIANT EmitState\nPROPERTY Monotone\nCONSTRAINT OnlyUsable\nCHECK_DEADLOCK FALSE\n")
     r = tlc.run_tlc("Progress", c7, workers=1, timeout=1500, coverage=True)
@@ -583,7 +615,7 @@ def run(tier):
     check_progress(chk, lstates, chk.scratch)
     phase("6a loops: progress states")
     # 6b: CheckStatus concurrent with the controller; nothing beyond the first completed CheckStatus from every state
-    c8 = _cfg(os.path.join(gen, "Progress_loopreports_%s.cfg" % tier), lconst % ((2, "3000, 7000", "1, 2") if not thorough else (3, "2500, 5000, 7500", "1, 2")) +
+    c8 = _cfg(os.path.join(gen, "Progress_loopreports_%s.cfg" % tier), lconst % ((2, "3000, 7000", "1, 2") if not thorough else (3, "2500, 3000, 5000, 7000, 7500", "1, 2")) +
               "SPECIFICATION Spec\nINVARIANT TypeOK\nINVARIANT EmitReport\nINVARIANT ReportedInRange\nCONSTRAINT OnlyUsable\nCONSTRAINT FirstReport\nCHECK_DEADLOCK FALSE\n")
     r = tlc.run_tlc("Progress", c8, workers=1, timeout=1500)
     if not r["ok"]:
@@ -592,14 +624,14 @@ def run(tier):
     lreports = [x for x in r["cases"] if "st0" in x]
     if len(lreports) < 500 or not any(max(x["iters0"]) == 2 for x in lreports):
         raise MachineryError("TLC emitted only %d CheckStatus reports with loops" % len(lreports))
-    check_interleavings(chk, lreports, chk.scratch, cov_key="loop_interleavings_executed")
+    check_interleavings(chk, lreports, chk.scratch, cov_key="loop_interleavings_executed", budget=35000 if thorough else None)
     phase("6b loops: interleavings")
     chk.cov["rule"] = ("weight cases: every assignment of the grid (ten-thousandths incl. negative, >1, truncation-sensitive values, missing, "
                        "malformed) to <=3 stages, emitted by TLC with the specified result; progress cases: every reachable state of the "
                        "Progress.tla state machine for the small grid; loops: every reachable state of the state machine with one stage hosting a DoWhile "
                        "loop of 1-2 iterations (2-3 stages, restarts), on real packages with a $import-ed DoWhile document; "
                        "distinct = distinct (given) vectors / (given, state) pairs")
-    chk.cov["exhaustive"] = True
+    chk.cov["exhaustive"] = not chk.cov.get("sampled")      # the TLC runs are; thorough samples what it executes on the real code (cov["sampled"])
     chk.assumptions += ["weights outside the grid (more than 4 decimals) are not explored",
                         "the controller below StatusMonitor is a stub that reports the model state; Controller.get_stage_status is the real method",
                         "TLC runs are exhaustive for the stated constants (MaxStages<=%d)" % ms,
